@@ -6,6 +6,8 @@ import time
 
 VERIF = os.path.dirname(os.path.dirname(os.path.abspath(__file__)))
 KNOWN = os.path.join(VERIF, "known_findings.json")
+# development aid (seed matrix against a scratch copy): evidence of such runs must not land in /verif/evidence
+EVDIR = os.environ.get("VERIF_EVIDENCE") or os.path.join(VERIF, "evidence")
 EXCEPTIONS = os.path.join(VERIF, "sa", "tables", "exceptions.toml")
 
 
@@ -122,7 +124,7 @@ class Check:
         replay = None
         if new:
             rc = 1
-            rdir = os.path.join(VERIF, "evidence", "replay")
+            rdir = os.path.join(EVDIR, "replay")
             os.makedirs(rdir, exist_ok=True)
             replay = os.path.join(rdir, "%s.json" % self.pid)
             with open(replay, "w") as f:
@@ -168,8 +170,8 @@ class Check:
             "wall_s": round(wall, 2),
             "violations": len(new),
         }
-        os.makedirs(os.path.join(VERIF, "evidence"), exist_ok=True)
-        with open(os.path.join(VERIF, "evidence", "%s.json" % self.pid), "w") as f:
+        os.makedirs(EVDIR, exist_ok=True)
+        with open(os.path.join(EVDIR, "%s.json" % self.pid), "w") as f:
             json.dump(ev, f, indent=1, sort_keys=True)
             f.write("\n")
         print(
@@ -197,7 +199,7 @@ def build_failed(pid, tier, level, log):
         "wall_s": 0.0,
         "violations": 1,
     }
-    os.makedirs(os.path.join(VERIF, "evidence"), exist_ok=True)
-    with open(os.path.join(VERIF, "evidence", "%s.json" % pid), "w") as f:
+    os.makedirs(EVDIR, exist_ok=True)
+    with open(os.path.join(EVDIR, "%s.json" % pid), "w") as f:
         json.dump(ev, f, indent=1)
     return 1
